@@ -31,9 +31,17 @@ MANIFEST = dict(
          'encoding-error READY and the loop continues; _ensure_messages_consumed true iff the counter reaches '
          'completed within 300 polls; process exit status (Worker.__call__/_do_exit) is EX_RECYCLE exactly when workloop '
          'returned it; parent: accept callback before any result callback for streams in pipe order, '
-         'owner pid = pid of the ACK, cancelled+handshake => NACK, no callback, no owner. Correspondence of the real '
-         'workloop / ResultHandler+ApplyResult on scripted cases, every event compared in Coq.',
-    note='Trusted: Coq kernel, translate/kernels/worker.py (+pykernel.FuncTr), Lib/PyVal.v, harness fakes (scripted '
+         'owner pid = pid of the ACK, cancelled+handshake => NACK, no callback, no owner; ApplyResult._ack/_set as '
+         'translated from pool.py on every run equal the model\'s p_ack/p_set (state and ordered hook calls); every job '
+         'announced and left behind is ACK,RUN,READY or ACK + the parent\'s NACK as first SYN answer; over ONE shared SYN '
+         'stream every answer is consumed by the job it was sent for; closed handshake (SYN answer := the parent\'s reaction '
+         'to the ACK): with the two switches linked (synack on, workers have a SYN queue, response delivered) a job '
+         'cancelled before acceptance is never run / counted in any run, one switch without the other starves the worker '
+         'or -- plain billiard Pool(synack=True) -- runs the cancelled job (refuted theorem + witness, reproduced on the real '
+         'code). Correspondence of the real workloop / ResultHandler+ApplyResult on scripted cases (per-job and shared SYN '
+         'stream, up to 130 empty polls before an answer, real workloop||real parent handshake cases, a real Pool), every '
+         'event compared in Coq; monitors on the real traces.',
+    note='Trusted: Coq kernel, translate/kernels/worker.py and workerparent.py (+pykernel.FuncTr), Lib/PyVal.v, harness fakes (scripted '
          'pipes, sentinel, clock, mem_rss, counter, pickling put, faked os._exit). Residue: signal delivery '
          '(C05/C08; here an oracle), a put of ACK that raises, os.getpid() being the real pid, SIGINT ignoring.',
     technique='Coq proof over translator-regenerated kernels + skeleton check + differential correspondence with an in-Coq protocol monitor',
@@ -81,12 +89,22 @@ def c_synev(e):
     return SIMPLE[e[0]]
 
 
+def c_req(e):
+    _, ty, job, i, t, beh, syn, mem = e[:8]
+    term = bool(e[8]) if len(e) > 8 else False
+    return '(mk_req %s %s %s %s %s %s %s %s)' % (
+        cz(ty), cz(job), oz(i), cz(t), c_beh(beh), clist(syn, c_synev), cz(mem), cbool(term))
+
+
 def c_inev(e):
     if e[0] == 'msg':
-        _, ty, job, i, t, beh, syn, mem = e[:8]
-        term = bool(e[8]) if len(e) > 8 else False
-        return '(RMsg (mk_req %s %s %s %s %s %s %s %s))' % (
-            cz(ty), cz(job), oz(i), cz(t), c_beh(beh), clist(syn, c_synev), cz(mem), cbool(term))
+        return '(RMsg %s)' % c_req(e)
+    return SIMPLE[e[0]]
+
+
+def c_hinev(e):
+    if e[0] == 'msg':
+        return '(RMsg (mk_hjob %s %s))' % (c_req(e), cbool(len(e) > 9 and bool(e[9])))
     return SIMPLE[e[0]]
 
 
@@ -223,6 +241,16 @@ def c_cobs(k):
 
 
 def to_coq(c, o):
+    if c['kind'] == 'h':
+        pc = dict(job_known=True, send_ack=c['send_ack'], accept_cb=c['accept_cb'], callback=c['callback'],
+                  error_cb=c['error_cb'])
+        if c['mode'] == 'plain' and not o['synq_none']:
+            raise Unrepresentable('Pool.get_process_queues returned a SYN queue')
+        po = ['(%s, %s, %s)' % (cz(int(j)), cbool(v['cancel']), c_pobs(v)) for j, v in sorted(o['parents'].items())]
+        return '(HCase %s %s %s %s %s [%s])' % (
+            c_pcfg(pc), cbool(c['mode'] == 'linked'), c_cfg(c), clist(c['ins'], c_hinev), c_wobs(o), '; '.join(po))
+    if c['kind'] == 'w' and c.get('shared_syn'):
+        return '(SCase %s %s %s)' % (c_cfg(c), clist(c['ins'], c_inev), c_wobs(o))
     if c['kind'] == 'w' and c.get('via_call'):
         return '(CCase %s %s %s %s)' % (c_cfg(c), clist(c['ins'], c_inev), c_wobs(o), c_cobs(o['call']))
     if c['kind'] == 'w':
@@ -243,6 +271,9 @@ def gen_syn(rng, synfd, forced=None):
         # the script is present but must never be consulted
         return rng.choice([[], [['msg', 3]], [['msg', 0]]])
     pre = [rng.choice(NONJOB) for _ in range(rng.choice([0, 0, 0, 1, 1, 2, 5]))]
+    if rng.random() < 0.03:
+        # a parent that answers late: more empty polls than the 60 after which wait_for_syn only logs
+        pre = [['timeout'] if rng.random() < 0.9 else rng.choice(NONJOB) for _ in range(rng.choice([61, 62, 70, 125]))]
     if forced is not None:
         return pre + [forced]
     r = rng.random()
@@ -304,6 +335,13 @@ def gen_wcase(rng):
     c['ins'] = ins
     if rng.random() < 0.3:
         via_call(c)
+    elif c['synfd'] is not None and rng.random() < 0.6:
+        c['shared_syn'] = True         # the SYN channel is one stream shared by the jobs
+        if rng.random() < 0.15:
+            # a parent that answers twice / late garbage: the rest is read by the NEXT job
+            for e in ins:
+                if e[0] == 'msg' and rng.random() < 0.4:
+                    e[6] = e[6] + [rng.choice([['msg', 0], ['msg', 3], ['timeout']])]
     return c
 
 
@@ -351,6 +389,19 @@ def boundary_wcases(full=True):
         c['ins'] = [['msg', 2, 1, None, 1, ['ret', 1], [e, ['msg', 0]], 0],
                     ['msg', 2, 2, None, 2, ['ret', 2], [['msg', 0]], 0], ['shutdown']]
         out.append(c)
+    # a parent that answers late: k empty polls of the SYN pipe (the code logs after 60 and must go
+    # on waiting), then the answer; the next job is refused; one SYN stream shared by the jobs, so an
+    # answer that is not awaited would be read by the next job
+    for k in ((59, 60, 61, 62, 130) if full else (60, 61, 62)):
+        for first, second in ((0, 3), (3, 0), (0, 0)):
+            for shared in (True, False):
+                c = dict(base, maxtasks=None, synfd=9)
+                if shared:
+                    c['shared_syn'] = True
+                c['ins'] = [['msg', 2, 1, None, 1, ['ret', 11], [['timeout']] * k + [['msg', first]], 0],
+                            ['msg', 2, 2, None, 2, ['ret', 22], [['timeout'], ['msg', second]], 0],
+                            ['msg', 2, 3, None, 3, ['raise', 1], [['msg', 0]], 0], ['shutdown']]
+                out.append(c)
     # invalid quotas, pid defaults, bad types, starvation
     for q in (0, -1):
         out.append(dict(base, maxtasks=q, ins=[['msg', 2, 1, None, 1, ['ret', 1], [], 0]]))
@@ -440,7 +491,128 @@ def derive_pcases(rng, wcases, wouts, n):
     return out
 
 
+def gen_hcase(rng, mode=None):
+    """closed handshake: real workloop + real ResultHandler/ApplyResult, jobs cancelled before
+    acceptance with probability 0.3"""
+    mode = mode or rng.choice(['plain', 'plain', 'linked', 'linked', 'linked', 'dropped'])
+    c = gen_cfg(rng)
+    c.update(kind='h', mode=mode, counter=None, pid=rng.choice([77, 31337, None]))
+    c['synfd'] = None if mode == 'plain' else rng.choice([9, 9, 9, 0])
+    c['send_ack'] = rng.random() < (0.75 if mode == 'plain' else 0.9)
+    c['accept_cb'], c['callback'], c['error_cb'] = (rng.random() < 0.85, rng.random() < 0.85, rng.random() < 0.8)
+    ins, jid, t = [], rng.choice([0, 10, 500]), 100
+    for _ in range(rng.choice([1, 1, 2, 3, 4, 6])):
+        while rng.random() < 0.2:
+            ins.append(rng.choice(NONJOB))
+        jid += rng.choice([1, 2])
+        t += rng.choice([0, 1, 3])
+        beh = rng.choice(BEHS) if rng.random() > 0.03 else ['term', rng.choice(TERM_CODES)]
+        delay = [rng.choice(NONJOB) for _ in range(rng.choice([0, 0, 1, 2, 3]))]
+        if rng.random() < 0.04:
+            delay = [['timeout']] * rng.choice([61, 65])
+        ins.append(['msg', 2 if rng.random() < 0.98 else 5, jid, rng.choice([None, None, 0, 3]), t, beh,
+                    delay if c['synfd'] is not None else [], rng.choice([0, 50, 100, 101]),
+                    1 if rng.random() < 0.05 else 0, 1 if rng.random() < 0.3 else 0])
+    if rng.random() < 0.9:
+        ins.append(rng.choice(TERMINAL))
+    c['ins'] = ins
+    return c
+
+
+def boundary_hcases():
+    out = []
+    base = dict(kind='h', maxtasks=None, inqfd=7, pid=77, ospid=4242, maxmem=None, counter=None)
+    for mode, synfd in (('plain', None), ('linked', 9), ('dropped', 9), ('linked', 0)):
+        for send_ack in (True, False):
+            for accept_cb in (True, False):
+                for pattern in ((0,), (1,), (0, 1, 0), (1, 1), (1, 0, 1)):
+                    c = dict(base, mode=mode, synfd=synfd, send_ack=send_ack, accept_cb=accept_cb, callback=True,
+                             error_cb=True, maxtasks=None if len(pattern) < 3 else 2)
+                    c['ins'] = [['msg', 2, 10 + n, None, 100 + n, ['ret', n] if n != 1 else ['raise', 2],
+                                 [['timeout']] * n if synfd is not None else [], 0, 0, cancel]
+                                for n, cancel in enumerate(pattern)] + [['shutdown']]
+                    out.append(c)
+    return out
+
+
 # ------------------------------------------------------------------ python-side monitor
+FINDING_SYNACK = 'C03:synack-without-syn-queue-runs-cancelled-job'
+
+
+def seg_first_answer(seg):
+    """(index, type) of the answer the worker's wait ends with, (index, None) for an event that
+    ends the loop, (None, None) when the wait never ends within the script"""
+    for n, e in enumerate(seg):
+        if e[0] == 'msg':
+            return n, e[1]
+        if e[0] in ('shutdown', 'eof', 'ioerr', 'none'):
+            return n, None
+    return None, None
+
+
+def monitors(c, o):
+    """the property, judged directly on what the real code did (independent of the Coq model):
+       M1 every answer on the SYN channel is consumed by the job it was sent for;
+       M2 every job the worker announced (ACK) and then left behind (it polled for another job) got
+          its READY, or was refused by the parent's NACK -- and a refused job is never executed;
+       M3 (closed handshake) a job cancelled before acceptance under synack is never executed and no
+          result callback runs without the accept callback."""
+    out = []
+    jobs = [e for e in c['ins'] if e[0] == 'msg']
+    has_syn = c['synfd'] is not None and not (c['kind'] == 'h' and c['mode'] == 'plain')
+    parents = o.get('parents', {})
+    # own answer of each job (by sequence number)
+    own = []
+    for e in jobs:
+        if c['kind'] == 'h':
+            lg = parents.get(str(e[2]), {}).get('log', [])
+            sent = [x[1] for x in lg if x[0] == 'send_ack']
+            own.append(sent[0] if (sent and c['mode'] == 'linked') else None)
+        else:
+            own.append(seg_first_answer(e[6])[1])
+    closed = c['kind'] == 'h' or all(seg_first_answer(e[6])[0] in (None, len(e[6]) - 1) for e in jobs)
+    if c.get('shared_syn') and not closed:
+        return out      # the script itself puts answers of one job in front of another job
+    if has_syn and closed and (c.get('shared_syn') or c['kind'] == 'h'):
+        for consumer, owner, kind in o.get('syn_use', []):
+            if consumer != owner:
+                out.append(('C03:syn-answer-consumed-by-another-job',
+                            'SYN event %s made readable for job #%s was consumed by the wait of job #%s'
+                            % (kind, owner, consumer)))
+                break
+    # walk the trace
+    log = o['log']
+    acks = [k for k, e in enumerate(log) if e[0] == 'put' and e[1] == 0 and e[4][0] == 'ackp']
+    for n, k in enumerate(acks):
+        if n >= len(jobs):
+            break
+        end = acks[n + 1] if n + 1 < len(acks) else len(log)
+        seg = log[k + 1:end]
+        j, i = log[k][2], log[k][3]
+        ready = any(e[0] == 'put' and e[1] == 1 and e[2] == j and e[3] == i for e in seg)
+        ran = any(e[0] == 'run' and e[1] == j for e in seg)
+        moved_on = any(e[0] == 'inq' for e in seg)
+        refused = has_syn and own[n] == 3
+        if moved_on and not ready and not refused:
+            out.append(('C03:acked-job-neither-answered-nor-refused',
+                        'job %s was announced (ACK) and abandoned: no READY, and the answer to its ACK was %s'
+                        % (j, {0: 'ACK', None: 'none'}.get(own[n], own[n]))))
+        if ran and refused:
+            out.append(('C03:refused-job-executed', 'job %s got NACK for its ACK and was executed' % j))
+        if c['kind'] == 'h' and c['send_ack'] and len(jobs[n]) > 9 and jobs[n][9]:
+            lg = parents.get(str(j), {}).get('log', [])
+            if ran or not py_accept_first(lg):
+                plain = c['mode'] == 'plain'
+                out.append((FINDING_SYNACK if plain else 'C03:cancelled-job-executed',
+                            'synack enabled, job %s cancelled before acceptance: executed=%s, parent callbacks %s, '
+                            'accepted()=%s worker_pids()=%s%s' % (
+                                j, ran, [x for x in lg if x[0].startswith('cb_')],
+                                parents.get(str(j), {}).get('accepted'), parents.get(str(j), {}).get('pids'),
+                                ' -- plain billiard.Pool(synack=True): Pool.get_process_queues gives the workers no '
+                                'SYN queue and Pool.send_ack is a no-op, so nothing refuses the job' if plain else '')))
+    return out
+
+
 def py_accept_first(log):
     """the property, evaluated directly on the real parent's output: no result/error callback
     before the accept callback"""
@@ -453,8 +625,24 @@ def py_accept_first(log):
     return True
 
 
+def brief(c):
+    """JSON of a case with runs of equal SYN events written as [event, "x", count]"""
+    def squeeze(l):
+        out = []
+        for e in l:
+            if out and out[-1][0] == e:
+                out[-1][1] += 1
+            else:
+                out.append([e, 1])
+        return [e if n == 1 else [e[0], 'x', n] for e, n in out]
+    d = dict(c)
+    if 'ins' in d:
+        d['ins'] = [e[:6] + [squeeze(e[6])] + e[7:] if e[0] == 'msg' else e for e in d['ins']]
+    return json.dumps(d)
+
+
 def nontrivial(c):
-    if c['kind'] == 'w':
+    if c['kind'] in ('w', 'h'):
         return sum(1 for e in c['ins'] if e[0] == 'msg') >= 2
     return len(c['evs']) >= 2
 
@@ -463,8 +651,40 @@ def correspond(res, n):
     rng = random.Random(res.seed * 65537 + 303)
     corpus = json.load(open(core.VERIF + '/corpus/C03.json'))
     full = res.tier != 'quick'
-    wcases = [c for c in corpus if c['kind'] == 'w'] + boundary_wcases(full) + [gen_wcase(rng) for _ in range(n)]
+    wcases = [c for c in corpus if c['kind'] in ('w', 'h')] + boundary_wcases(full) + boundary_hcases() \
+        + [gen_wcase(rng) for _ in range(n)] + [gen_hcase(rng) for _ in range(max(60, n // 3))]
     wouts = core.run_driver('worker_driver.py', wcases, timeout=1200)
+    # the property judged directly on the real traces
+    late_alarms = []        # the registered / candidate finding goes last: anything else is reported first
+    mon = []
+    for c, o in zip(wcases, wouts):
+        for sig, what in monitors(c, o)[:1]:
+            mon.append((len(json.dumps(c)), dict(signature=sig, what='%s; case %s' % (what, brief(c)[:700]),
+                                                 replay=dict(case=c, impl=o, monitor=sig))))
+    for _, a in sorted(mon, key=lambda x: ('cb_result' not in x[1]['what'], x[0])):      # most telling, smallest first
+        (late_alarms if a['signature'] == FINDING_SYNACK else res.alarms).append(a)
+    # the same configuration with a REAL pool and a real worker process
+    rcases = [dict(kind='real', synack=True, cancel=True), dict(kind='real', synack=True, cancel=False)]
+    if full:
+        rcases += [dict(kind='real', synack=False, cancel=True), dict(kind='real', synack=False, cancel=False)]
+    routs = core.run_driver('worker_driver.py', rcases, timeout=400)
+    for c, o in zip(rcases, routs):
+        if o.get('error'):
+            res.broken.append(dict(kind='harness', name='real-pool scenario failed', detail=json.dumps(dict(case=c, impl=o))))
+            continue
+        ran = o['value'] == 14 or any(e[0] == 'cb_result' for e in o['log'])
+        if c['synack'] and c['cancel'] and (ran or not py_accept_first(o['log'])):
+            plain = not o['worker_has_syn_queue']
+            late_alarms.append(dict(
+                signature=FINDING_SYNACK if plain else 'C03:cancelled-job-executed',
+                what='real billiard.Pool(1, synack=True), job cancelled (_cancel()) while the only worker was busy, i.e. '
+                     'before acceptance: get() -> %r, callbacks %s, accepted()=%s, worker_pids() has %d entries, worker '
+                     'has a SYN queue: %s' % (o['value'], o['log'], o['accepted'], o['pids'], o['worker_has_syn_queue']),
+                replay=dict(case=c, impl=o, monitor=FINDING_SYNACK)))
+        elif not py_accept_first(o['log']) or (not c['cancel'] and o['value'] != 14):
+            res.alarms.append(dict(signature='C03:result-callback-before-accept',
+                                   what='real pool: %s -> %s' % (json.dumps(c), json.dumps(o)),
+                                   replay=dict(case=c, impl=o)))
     pcases = ([c for c in corpus if c['kind'] == 'p'] + boundary_pcases(full)
               + [gen_pcase(rng) for _ in range(n)] + derive_pcases(rng, wcases, wouts, max(50, n // 3)))
     pouts = core.run_driver('worker_driver.py', pcases, timeout=1200)
@@ -478,12 +698,12 @@ def correspond(res, n):
         except Unrepresentable as exc:
             # the implementation produced something the model's vocabulary does not have
             res.alarms.append(dict(
-                signature='C03:worker-protocol-differs' if c['kind'] == 'w' else 'C03:parent-ack-differs',
+                signature='C03:worker-protocol-differs' if c['kind'] in ('w', 'h') else 'C03:parent-ack-differs',
                 what='implementation produced an observation outside the protocol vocabulary (%s) on %s'
                      % (exc, json.dumps(c)[:600]),
                 replay=dict(case=c, impl=o)))
     # worker cases are large terms: smaller chunks
-    nw = sum(1 for k in tidx if cases[k]['kind'] == 'w')
+    nw = sum(1 for k in tidx if cases[k]['kind'] in ('w', 'h'))
     chunks = core.chunks(terms[:nw], 120) + core.chunks(terms[nw:], 450)
     chunks = [ch for ch in chunks if ch]
     try:
@@ -504,7 +724,8 @@ def correspond(res, n):
                                             'consumed in pipe order: %s -> %s' % (json.dumps(c['evs']), json.dumps(o['log'])),
                                        replay=dict(case=c, impl=o)))
 
-    hist = dict(jobs={}, behaviours={}, quotas={}, syn_answers={}, exits={}, parent_lengths={}, via_call_status={})
+    hist = dict(jobs={}, behaviours={}, quotas={}, syn_answers={}, exits={}, parent_lengths={}, via_call_status={},
+                syn_wait_polls={}, handshake_modes={}, cancelled_before_acceptance=0, shared_syn_stream=0)
 
     def bump(d, k):
         d[str(k)] = d.get(str(k), 0) + 1
@@ -515,7 +736,15 @@ def correspond(res, n):
         bump(hist['exits'], ':'.join(str(v) for v in o['exit']))
         if c.get('via_call'):
             bump(hist['via_call_status'], o['call']['osexit'])
+        if c['kind'] == 'h':
+            bump(hist['handshake_modes'], '%s/synack=%s' % (c['mode'], c['send_ack']))
+            hist['cancelled_before_acceptance'] += sum(1 for e in jobs if len(e) > 9 and e[9])
+        if c.get('shared_syn'):
+            hist['shared_syn_stream'] += 1
         for e in jobs:
+            if c['synfd'] is not None:
+                k = len(e[6])
+                bump(hist['syn_wait_polls'], '0-5' if k <= 5 else '6-60' if k <= 60 else '61+')
             bump(hist['behaviours'], e[5][0] + ('+termflag' if len(e) > 8 and e[8] else ''))
             if c['synfd'] is not None:
                 last = e[6][-1] if e[6] else ['starved']
@@ -524,7 +753,8 @@ def correspond(res, n):
         bump(hist['parent_lengths'], len(c['evs']))
     distinct = len({json.dumps(c, sort_keys=True) for c in cases if nontrivial(c)})
     sample_w = next((k for k, c in enumerate(wcases) if 2 <= len(c['ins']) <= 4 and c['synfd'] is not None), 0)
-    res.add_cov(evaluations=len(cases), distinct=distinct, traces=len(cases),
+    hist['real_pool_scenarios'] = len(rcases)
+    res.add_cov(evaluations=len(cases) + len(rcases), distinct=distinct, traces=len(cases) + len(rcases),
                 samples=[dict(case=wcases[sample_w], impl=wouts[sample_w]),
                          dict(case=pcases[-1], impl=pouts[-1])],
                 rule='worker: corpus + enumerated boundary cases (every behaviour x quota None/1..5 x N-1/N/N+1 jobs x '
@@ -532,20 +762,24 @@ def correspond(res, n):
                      'on the job pipe and in the SYN wait, invalid quotas, counter reached at poll 0/1/299/never) + seeded '
                      'random scripts of 0..30 jobs; parent: all event lists up to length %d over 6 events x 16 callback '
                      'configurations + random lists + streams derived from the real worker outputs with cancellations '
-                     'woven in; non-trivial = at least two jobs / two parent events; distinct by canonical JSON'
+                     'woven in; worker also over ONE shared SYN stream (60 %% of handshake scripts), 59..130 empty SYN polls '
+                     'before a late answer, answers sent twice; closed handshake cases (real workloop || real ResultHandler + one '
+                     'ApplyResult per job, jobs cancelled before acceptance, modes plain / linked / response dropped) enumerated '
+                     'and random; 2 (thorough 4) scenarios on a real Pool with a real worker process; non-trivial = at least two '
+                     'jobs / two parent events; distinct by canonical JSON'
                      % (3 if full else 2),
                 worker_cases=len(wcases), parent_cases=len(pcases), input_histogram=hist)
     # smallest failing input first (it becomes the replay)
     def size(ic):
         c = cases[tidx[ic[0]]]
-        odd = c['kind'] == 'w' and c['maxtasks'] is not None and c['maxtasks'] < 1   # constructor refuses it
+        odd = c['kind'] in ('w', 'h') and c['maxtasks'] is not None and c['maxtasks'] < 1   # constructor refuses it
         return (odd, len(json.dumps(c)), ic[0])
     codes = sorted(codes, key=size)
     for i, code in codes:
         k = tidx[i]
         c, o = cases[k], outs[k]
         if code == 2:
-            if c['kind'] == 'w':
+            if c['kind'] in ('w', 'h'):
                 sig, what = 'C03:worker-protocol-differs', (
                     'real Worker.workloop violates the protocol / differs from the proved model in messages, '
                     'executions, exit, completed count or reported exit status')
@@ -553,14 +787,16 @@ def correspond(res, n):
                 sig, what = 'C03:parent-ack-differs', (
                     'real ResultHandler/ApplyResult differs from the proved model in callbacks, SYN response or ownership record')
             res.alarms.append(dict(signature=sig, what='%s on %s: impl %s' % (
-                what, json.dumps(c)[:700], json.dumps(o)[:700]), replay=dict(case=c, impl=o)))
+                what, brief(c)[:700], json.dumps(dict(o, syn_use=len(o.get('syn_use', []))) if isinstance(o, dict) else o)[:700]),
+                replay=dict(case=c, impl=o)))
         else:
             res.broken.append(dict(kind='correspondence', name='Worker.workloop vs model (bookkeeping events only)',
                                    detail=json.dumps(dict(case=c, impl=o))[:3000]))
+    res.alarms.extend(late_alarms)
 
 
 def run(res):
-    res.proof_step('Props/C03.v', extra_targets=['Model/Worker.vo'], kernels_needed=['K_worker'])
+    res.proof_step('Props/C03.v', extra_targets=['Model/Worker.vo'], kernels_needed=['K_worker', 'K_workerparent'])
     n = 200 if res.tier == 'quick' else 8000
     if res.broken:
         n = max(n, 3000)      # failing-input search
@@ -569,6 +805,7 @@ def run(res):
         'the task function, pipes, sentinel, clock, mem_rss() and the consumed-result counter are oracles: theorems hold for all of them; the harness scripts them',
         'when a termination signal arrives is an oracle (behaviour Terminated / flag q_term); signal delivery itself belongs to C05/C08',
         'put() of an ACK never raises (its payload is ints); a second failure of the fallback READY put is not modelled',
+        'the SYN channel is FIFO and what the parent sends for a job becomes readable after that job\'s ACK was written (closed handshake cases realise exactly this); a pool that implements the handshake overrides BOTH Pool.get_process_queues and Pool.send_ack (plain billiard overrides neither: see C03_synack_honours_cancel_refuted)',
         'parent side is one ApplyResult behind ResultHandler.on_ack/on_ready; MapResult/IMapIterator acknowledgement belongs to C02; closed parent/worker composition belongs to the pool model (C01)',
     ]
 
@@ -604,11 +841,25 @@ def replay(path):
     out = core.run_driver('worker_driver.py', [c])[0]
     print('case:', json.dumps(c))
     print('implementation now:', json.dumps(out))
+    if c['kind'] == 'real':
+        ran = out.get('value') == 14 or any(e[0] == 'cb_result' for e in out.get('log', []))
+        bad = c['synack'] and c['cancel'] and (ran or not py_accept_first(out.get('log', [])))
+        print('cancelled job executed / result callback without accept callback' if bad else 'property holds on this scenario')
+        return 1 if bad else 0
     with core.Lock():
-        core.translate(['K_worker'])
+        core.translate(['K_worker', 'K_workerparent'])
         core.coq_make(['Model/Worker.vo'])
-        if c['kind'] == 'w':
-            print('model:', model_eval('Worker.workloop %s %s' % (c_cfg(c), clist(c['ins'], c_inev))))
+        if c['kind'] == 'h':
+            for sig, what in monitors(c, out):
+                print('monitor:', sig, '--', what)
+            print('model:', model_eval('Worker.workloop_s %s (Worker.hs_ins %s %s %s %s)' % (
+                c_cfg(c), c_pcfg(dict(c, job_known=True)), cbool(c['mode'] == 'linked'), c_cfg(c),
+                clist(c['ins'], c_hinev))))
+        elif c['kind'] == 'w':
+            for sig, what in monitors(c, out):
+                print('monitor:', sig, '--', what)
+            print('model:', model_eval('Worker.%s %s %s' % ('workloop_s' if c.get('shared_syn') else 'workloop',
+                                                            c_cfg(c), clist(c['ins'], c_inev))))
         else:
             print('model:', model_eval('Worker.p_run %s (Worker.ar_init %s) %s' % (
                 c_pcfg(c), c_pcfg(c), clist(c['evs'], c_pev))))
@@ -618,4 +869,8 @@ def replay(path):
             print('implementation observation outside the protocol vocabulary:', exc)
             return 1
     print('model agrees' if not codes else 'model disagrees (code %d)' % codes[0][1])
+    if d['replay'].get('monitor') and c['kind'] in ('w', 'h'):
+        hit = [m for m in monitors(c, out) if m[0] == d['replay']['monitor']]
+        print('monitor %s: %s' % (d['replay']['monitor'], 'still violated' if hit else 'holds now'))
+        return 1 if hit or codes else 0
     return 1 if codes else 0
